@@ -80,6 +80,9 @@ func checkC17(c C17Case) *Violation {
 		}
 	}
 	play := func(text string, idx []int) *Violation {
+		if (len(text)+len(c.Key))%3 == 0 {
+			text = "R[1/2] " + text // a third of the pieces open with a pickup rest
+		}
 		conv := crd(text, "text", "conv", "syllable", "--key", c.Key)
 		if v := cleanOutcome(conv); v != nil {
 			return v
